@@ -242,3 +242,84 @@ func specSpaces(n int) string {
 	}
 	return strings.Repeat(" ", n)
 }
+
+// ---------------------------------------------------------------------------
+// Function signatures (C10). specTypeMatch has a quantified SMT definition in
+// /verif/spec/raw_specs.smt2; this is its native twin.
+
+func specTypeMatch(t jpType, arg interface{}) bool {
+	switch t {
+	case jpNumber:
+		_, ok := arg.(float64)
+		return ok
+	case jpString:
+		_, ok := arg.(string)
+		return ok
+	case jpArray:
+		return isSliceType(arg)
+	case jpObject:
+		_, ok := arg.(map[string]interface{})
+		return ok
+	case jpArrayNumber:
+		a, ok := arg.([]interface{})
+		if !ok {
+			return false
+		}
+		for _, e := range a {
+			if _, isNum := e.(float64); !isNum {
+				return false
+			}
+		}
+		return true
+	case jpArrayString:
+		a, ok := arg.([]interface{})
+		if !ok {
+			return false
+		}
+		for _, e := range a {
+			if _, isStr := e.(string); !isStr {
+				return false
+			}
+		}
+		return true
+	case jpExpref:
+		_, ok := arg.(expRef)
+		return ok
+	case jpAny:
+		_, isRef := arg.(expRef)
+		return !isRef
+	}
+	return false
+}
+
+// specTypeOK: arg satisfies one of types[i:].
+func specTypeOK(types []jpType, i int, arg interface{}) bool {
+	if i < 0 || i >= len(types) {
+		return false
+	}
+	return specTypeMatch(types[i], arg) || specTypeOK(types, i+1, arg)
+}
+
+// specArgsFrom: every argument from position i on satisfies its parameter (the
+// last parameter's types for the variadic tail).
+func specArgsFrom(specs []argSpec, args []interface{}, i int) bool {
+	if i < 0 || i >= len(args) || len(specs) == 0 {
+		return true
+	}
+	k := i
+	if k >= len(specs) {
+		k = len(specs) - 1
+	}
+	return specTypeOK(specs[k].types, 0, args[i]) && specArgsFrom(specs, args, i+1)
+}
+
+// specArgsOK: arity and types of a call against a signature.
+func specArgsOK(specs []argSpec, args []interface{}) bool {
+	if len(specs) == 0 {
+		return true
+	}
+	if specs[len(specs)-1].variadic {
+		return len(args) >= len(specs) && specArgsFrom(specs, args, 0)
+	}
+	return len(args) == len(specs) && specArgsFrom(specs, args, 0)
+}
